@@ -1146,7 +1146,7 @@ pub fn run(args: &Args) -> i32 {
     let shards = args.scale(64, 256);
     let per_shard_per_type = match args.extra.get("cases").and_then(|s| s.parse::<u64>().ok()) {
         Some(n) => n,
-        None => args.scale(2_000_000, 6_000_000),
+        None => args.scale(500_000, 6_000_000),
     };
     let seed = args.seed;
     run_shards(&mut mon, args.threads, shards, |shard, m| {
